@@ -36,7 +36,8 @@ assumptions = [
 TAGS = ["OFX", "STMTRS", "BANKTRANLIST", "STMTTRN", "A", "B1", "INTU.BID", "X.Y", "LEDGERBAL", "INVPOSLIST",
         "SECLIST", "AGG", "SUB", "T_1"]
 LEAFS = ["CODE", "SEVERITY", "TRNAMT", "NAME", "MEMO", "DTPOSTED", "FITID", "L1", "V.W", "CURDEF"]
-DATA = ["0", "INFO", "-12.50", "ACME &amp; Co", "20200101120000.000[-5:EST]", "x y z", "1", "USD", "a&lt;b", "Z9"]
+DATA = ["0", "INFO", "-12.50", "ACME &amp; Co", "20200101120000.000[-5:EST]", "x y z", "1", "USD", "a&lt;b", "Z9",
+        "<![CDATA[plain]]>", "<![CDATA[a <b> & c]]>", "caf\u00e9 &amp; th\u00e9" if False else "tab\there"]
 WSS = ["", "", "\n", "  ", "\r\n\t", " \n "]
 
 
